@@ -113,6 +113,9 @@ func New(maxConcurrent int, chQqueueSize int, v ...interface{}) *TaskPool {
 				if tp.fork(f) {
 					continue
 				}
+				// fork failed: undo its increment, like Go does,
+				// or the pool's capacity is lost for ever.
+				atomic.AddInt64(&tp.concurrent, -1)
 
 				if f != nil {
 					tp.caller(f)
